@@ -221,14 +221,26 @@ pub fn parallel<F: Fn(usize, usize) + Sync>(threads: usize, f: F) {
     });
 }
 
-/// silence the default panic printer; monitors record panics themselves
+thread_local! {
+    static IN_CATCH: std::cell::Cell<bool> = const { std::cell::Cell::new(false) };
+}
+
+/// Silence the panic printer for panics raised inside `catch` (monitors record those themselves);
+/// a panic of the harness itself is printed as `HARNESS-PANIC` (the run is then inconclusive).
 pub fn quiet_panics() {
-    std::panic::set_hook(Box::new(|_| {}));
+    std::panic::set_hook(Box::new(|info| {
+        if !IN_CATCH.with(|c| c.get()) {
+            eprintln!("HARNESS-PANIC {info}");
+        }
+    }));
 }
 
 /// run `f`, returning Err(message) if it panicked
 pub fn catch<R>(f: impl FnOnce() -> R) -> Result<R, String> {
-    match std::panic::catch_unwind(std::panic::AssertUnwindSafe(f)) {
+    let prev = IN_CATCH.with(|c| c.replace(true));
+    let res = std::panic::catch_unwind(std::panic::AssertUnwindSafe(f));
+    IN_CATCH.with(|c| c.set(prev));
+    match res {
         Ok(r) => Ok(r),
         Err(e) => Err(if let Some(s) = e.downcast_ref::<&str>() {
             s.to_string()
